@@ -291,7 +291,7 @@ def real_rule(axis, side, target_known):
         frame_and_setonce(c, pre, post, {tcell}, "real")
         t = (x - P._edge(N[axis], Fraction(1), 0)) / Fraction(1)
         if exc is None:
-            c.prove("real/sound:target_is_nearest_edge", is_nearest(post[tcell], t, 0, N[axis]))
+            c.prove("real/sound:target_is_nearest_edge", is_nearest(post[tcell], t, 0, N[axis]) if post[tcell] is not None else False)
             c.prove("real/flag", ret[0] == bool(changed_cells(pre, post)))
         else:
             c.prove("real/raises_only_when_target_known", target_known)
@@ -336,7 +336,8 @@ def position_rule(axis, p_own, p_other, pattern_bits, with_grid_margin):
         # exit every object passed the bounds check and cells are set-once
         V.assume(vand(in_range(pre[("Y", axis, "b0")], N[axis]), in_range(pre[("Y", axis, "b1")], N[axis])))
         b0, b1 = post[("X", axis, "b0")], post[("X", axis, "b1")]
-        c.prove("pos/sound:targets_known", b0 is not None and b1 is not None)
+        if not c.prove("pos/sound:targets_known", b0 is not None and b1 is not None):
+            return
         size = pre[("X", axis, "s")]
         c.prove("pos/sound:extent==size", veq(b1 - b0, size))
         clause = P.constraint_clauses(("pos", "X", "Y", (axis,), (p_own,), (p_other,), (m,), (g,)), {"X": st.slices["X"], "Y": st.slices["Y"]}, N)
@@ -382,7 +383,8 @@ def size_rule(axis, other_axis, prop, pattern_bits, with_grid_offset):
             return
         V.assume(vand(in_range(pre[("Y", other_axis, "b0")], N[other_axis]), in_range(pre[("Y", other_axis, "b1")], N[other_axis])))
         s = post[("X", axis, "s")]
-        c.prove("size/sound:target_known", s is not None)
+        if not c.prove("size/sound:target_known", s is not None):
+            return
         length = (pre[("Y", other_axis, "b1")] - pre[("Y", other_axis, "b0")]) * pr + off + g
         c.prove("size/sound:length_nonnegative", length >= 0)
         c.prove("size/sound:size_is_nearest_count", is_nearest(s, length, 0, N[axis]))
